@@ -111,9 +111,13 @@ void emit(std::string& out, const JV& v, Deco& d) {
   }
 }
 
+// One Json::Parser object serves all parses of a case (a parser that is used for several documents must not carry anything
+// over from one to the next); every third call uses a fresh one.
+Json::Parser* g_parser = nullptr; long g_parses = 0;
 bool parseExact(const std::string& text, Variant& v, int& line, int& col) {
   char* t = (char*)malloc(text.size() + 1); memcpy(t, text.data(), text.size()); t[text.size()] = 0;
-  Json::Parser p; bool ok = p.parse(t, v);
+  Json::Parser fresh; Json::Parser& p = (g_parser && (++g_parses % 3)) ? *g_parser : fresh;
+  bool ok = p.parse(t, v);
   if (!ok) { line = p.getErrorLine(); col = p.getErrorColumn(); }
   free(t);
   return ok;
@@ -158,6 +162,7 @@ bool pbt_nontrivial(const Ctx& ctx) { return (ctx.has("escape_or_nonascii") && c
 
 void pbt_run(const Case& cs, Ctx& ctx) {
   pbt::g_ledger.limitBytes = 48u << 20;
+  struct ParserScope { ParserScope() { g_parser = new Json::Parser; g_parses = 0; } ~ParserScope() { delete g_parser; g_parser = nullptr; } } parserScope;
   // ---- build the model tree from the flat op list (total: pops on an empty stack are ignored, open containers are closed at the end)
   JV root; bool haveRoot = false;
   std::vector<std::vector<size_t>> open;  // index paths of the open containers (the root container has the empty path)
